@@ -66,9 +66,11 @@ def make_container(a, kind):
 def digest_container(c):
     np = world.np
     if isinstance(c, np.ndarray):
-        return hashlib.md5(np.ascontiguousarray(c).tobytes() + str(c.shape).encode() + str(c.dtype).encode()).hexdigest()
+        # bytes, shape, dtype and the writeable flag: a caller whose array has become read-only has had its input modified
+        return hashlib.md5(np.ascontiguousarray(c).tobytes() + str(c.shape).encode() + str(c.dtype).encode()
+                           + (b"W" if c.flags.writeable else b"R")).hexdigest()
     if isinstance(c, tuple) and c and isinstance(c[0], np.ndarray):
-        return hashlib.md5(b"|".join(np.ascontiguousarray(x).tobytes() for x in c)).hexdigest()
+        return hashlib.md5(b"|".join(np.ascontiguousarray(x).tobytes() + (b"W" if x.flags.writeable else b"R") for x in c)).hexdigest()
     return hashlib.md5(repr(c).encode()).hexdigest()
 
 
@@ -144,6 +146,7 @@ class Env(object):
         self.scratch = None
         self.files = []
         self.shared_lists = {}
+        self.buf_kind = {}
         self.obj_eos = {}    # solver object id -> EOS object id (an EOS is released with its last solver)
         self.obj_ic = {}
 
@@ -192,6 +195,20 @@ def _do_cfg(env, op):
     return ("ok",)
 
 
+def _do_aux(env, op):
+    """A documented helper method of a solver object other than __call__ (SDRZ.run_tvec, the radiative-shock
+    setup_solver): it is not configuration, so it is NOT part of the object's reference chain -- later calls must
+    behave as if it had not happened -- and its own result is compared with the fresh one like a call's."""
+    np = world.np
+    obj = env.objs.get(op["obj"])
+    if obj is None:
+        return ("noobj",)
+    res = getattr(obj, op["m"])(*dec(op.get("a", [])), **dec(op.get("k", {"d": []})))
+    if hasattr(res, "dtype") and getattr(res.dtype, "names", None):
+        return sol_outcome(res)
+    return ("ok", repr(type(res)))
+
+
 def _do_call(env, op):
     np = world.np
     obj = env.objs.get(op["obj"])
@@ -201,17 +218,19 @@ def _do_call(env, op):
     old = env.bufs.get(bid)
     if old is not None and isinstance(old, np.ndarray) and cont in ("nd", "ro", "strided", "fortran") \
             and old.shape == data.shape:
-        # the caller refills the very same ndarray object with new points
+        # the caller refills the very same ndarray object with new points; a read-only container stays one (its owner
+        # lifts the protection for the refill), a container that was created writable is simply written
         was = old.flags.writeable
         if not was:
             old.flags.writeable = True
         old[...] = data
-        if not was:
+        if not was and env.buf_kind.get(bid) == "ro":
             old.flags.writeable = False
         c = old
     else:
         c = make_container(data, cont)
         env.bufs[bid] = c
+        env.buf_kind[bid] = cont
     env.buf_dig[bid] = digest_container(c)
     if obj is None:
         return ("noobj",)
@@ -377,7 +396,7 @@ def expected_cells(sol):
     return [list(row) for row in zip(*cols)] if cols else []
 
 
-DISPATCH = {"new": _do_new, "cfg": _do_cfg, "call": _do_call, "scribble": _do_scribble,
+DISPATCH = {"new": _do_new, "cfg": _do_cfg, "aux": _do_aux, "call": _do_call, "scribble": _do_scribble,
             "drop": _do_drop, "churn": _do_churn, "dump": _do_dump}
 
 
